@@ -5,6 +5,7 @@ import (
 	"encoding/hex"
 	"errors"
 	"fmt"
+	"github.com/jcmturner/gokrb5/v8/pac"
 	"sync"
 
 	"github.com/jcmturner/gofork/encoding/asn1"
@@ -227,4 +228,19 @@ func (p *pacFactory) forKey(key types.EncryptionKey, variant string) (types.Auth
 		return nil, fmt.Errorf("unknown PAC variant %q", variant)
 	}
 	return wrapPAC(img)
+}
+
+// effectiveName is the EffectiveName of the sample PAC's KERB_VALIDATION_INFO (what a verified PAC makes the user name of the
+// returned identity); decoded with gokrb5's own decoder, whose fidelity is C19's subject.
+func (p *pacFactory) effectiveName() string {
+	p.once.Do(p.load)
+	for _, x := range p.bufs {
+		if x.typ == 1 {
+			var k pac.KerbValidationInfo
+			if err := k.Unmarshal(x.data); err == nil {
+				return k.EffectiveName.String()
+			}
+		}
+	}
+	return ""
 }
